@@ -95,6 +95,10 @@
 //	            `*f = v` through the written pointer receiver wherever it occurs (the final value of *f is
 //	            returned with the results, so an assignment on the success paths only is visible as
 //	            the unchanged parameter on the error paths).
+//	            `err := json.Unmarshal(b, &x)` (x a local of a named struct type S; also as an if's init): NO MODEL,
+//	            ORACLE o_json_Unmarshal_S : go_bytes -> S -> err * S, a leading parameter (all fields of S are kept);
+//	            struct members of type *string / *uint8 / *bool are options: p == nil, p != nil, *p (nil
+//	            dereference not modelled: zero value); the empty array literal Data{}; `return err` of a local error.
 //
 // render      (renderings family: pkg/cantext/encode.go, pkg/canjson/encode.go; readings: Translate/GoSemText.v, last block)
 //	            append-style byte building on a []byte variable v that is a make'd local or a []byte PARAMETER (a
@@ -239,6 +243,7 @@ var whitelist = []struct{ pkg, recv, name string }{
 	{"", "Frame", "String"},
 	{"", "Frame", "UnmarshalString"},
 	{"", "Frame", "JSON"},
+	{"", "Frame", "UnmarshalJSON"},
 	{"pkg/canjson", "", "uintToJSON"},
 	{"pkg/canjson", "", "intToJSON"},
 	{"pkg/canjson", "", "floatToJSON"},
@@ -323,6 +328,7 @@ type gtype struct {
 	st2    *structInfo // kIface: the struct behind Descriptor() (st: the one Frame() returns)
 	ptr    bool
 	opt    bool // a *S result or local: option S (nil = None); parameters/receivers of type *S are the value
+	popt   bool // *string / *uint8 / *bool (struct members filled by json.Unmarshal): option of the base type (nil = None)
 }
 
 type structInfo struct {
@@ -338,6 +344,11 @@ func (t *translator) classify(pos token.Pos, typ types.Type) gtype {
 	if p, ok := typ.(*types.Pointer); ok {
 		if n, ok := p.Elem().(*types.Named); ok && n.Obj().Pkg() != nil && n.Obj().Pkg().Path() == "go/types" && n.Obj().Name() == "Basic" {
 			return gtype{k: kBasicTy} // only ever obtained as types.Typ[kind]
+		}
+		if b, ok := p.Elem().(*types.Basic); ok && (b.Kind() == types.String || b.Kind() == types.Uint8 || b.Kind() == types.Bool) {
+			g := t.classify(pos, b)
+			g.popt = true // only read: == nil, != nil, *p
+			return g
 		}
 		g := t.classify(pos, p.Elem())
 		if g.ptr || (g.k != kArray && g.k != kStruct) {
@@ -477,6 +488,11 @@ func ifaceCall(info *types.Info, call *ast.CallExpr) (*ast.Ident, string, bool) 
 }
 
 func (g gtype) coq() string {
+	if g.popt {
+		h := g
+		h.popt = false
+		return "(option " + h.coq() + ")"
+	}
 	switch g.k {
 	case kInt:
 		return "Z"
@@ -507,7 +523,7 @@ func (g gtype) coq() string {
 
 // same: identical types of the subset (pointer-ness aside).
 func (g gtype) same(h gtype) bool {
-	if g.k != h.k {
+	if g.k != h.k || g.popt != h.popt {
 		return false
 	}
 	switch g.k {
@@ -526,6 +542,9 @@ func (g gtype) same(h gtype) bool {
 }
 
 func (t *translator) zero(pos token.Pos, g gtype) string {
+	if g.popt {
+		return "None"
+	}
 	switch g.k {
 	case kInt:
 		return "0"
@@ -849,6 +868,9 @@ func (t *translator) analyse(key string, from token.Pos) *fn {
 		case *ast.CompositeLit:
 			tv := info.Types[x]
 			g := t.classify(x.Pos(), tv.Type)
+			if g.k == kArray && !g.ptr && len(x.Elts) == 0 {
+				return true // Data{}: the zero array
+			}
 			if g.k != kStruct || g.ptr {
 				t.failf(x.Pos(), "composite literal of type %s", tv.Type)
 			}
@@ -903,6 +925,22 @@ func (t *translator) analyse(key string, from token.Pos) *fn {
 			if o, ok := t.floatFmt(info, x, callee); ok {
 				t.usesText = true
 				f.addOracle(o)
+				return true
+			}
+			if isJSONUnmarshal(callee) {
+				id := jsonTarget(info, x)
+				if id == nil {
+					t.failf(x.Pos(), "json.Unmarshal whose second argument is not &x with x a variable")
+				}
+				g := t.classify(id.Pos(), info.TypeOf(id))
+				if g.k != kStruct || g.ptr || g.opt {
+					t.failf(x.Pos(), "json.Unmarshal into a %s", info.TypeOf(id))
+				}
+				for i := 0; i < g.st.st.NumFields(); i++ {
+					g.st.used[g.st.st.Field(i).Name()] = true
+				}
+				t.usesText = true
+				f.addOracle(jsonOraclePrefix + g.st.coq)
 				return true
 			}
 			if _, ok := textLibOf(callee); ok {
@@ -1281,6 +1319,10 @@ func oracleOf(f *types.Func) (string, bool) {
 // from the float64's BIT PATTERN (go_math_Float64bits) to the text - exactly how the hand model
 // Gen/Render.v carries them (segments FloatG bits / FloatF bits, rendered by a Section variable).
 func oracleType(o string) string {
+	if strings.HasPrefix(o, jsonOraclePrefix) {
+		st := strings.TrimPrefix(o, jsonOraclePrefix)
+		return "go_bytes -> " + st + " -> err * " + st
+	}
 	if strings.HasPrefix(o, "o_strconv_") || strings.HasPrefix(o, "o_time_") {
 		return "Z -> go_string"
 	}
@@ -1374,6 +1416,53 @@ func intrinsicOf(f *types.Func) (intrinsic, bool) {
 	}
 	in, ok := intrinsics[k]
 	return in, ok
+}
+
+// json.Unmarshal(b, &x) with x a local of a named struct type S of this module HAS NO MODEL: ORACLE
+// o_json_Unmarshal_S : go_bytes -> S -> err * S (document, value of x before -> error, value of x after),
+// a leading parameter of the translated function; only as `err := json.Unmarshal(b, &x)` (also as the init
+// statement of an if). All fields of S count as used. The lemma in Equiv.v is stated for every such function
+// that agrees with the hand model's oracle (FrameJSON.read_doc).
+const jsonOraclePrefix = "o_json_Unmarshal_"
+
+func isJSONUnmarshal(f *types.Func) bool {
+	k, ok := libKey(f)
+	return ok && k == "encoding/json.Unmarshal"
+}
+
+// jsonTarget: the struct variable x of `json.Unmarshal(b, &x)`.
+func jsonTarget(info *types.Info, call *ast.CallExpr) *ast.Ident {
+	if len(call.Args) != 2 {
+		return nil
+	}
+	u, ok := ast.Unparen(call.Args[1]).(*ast.UnaryExpr)
+	if !ok || u.Op != token.AND {
+		return nil
+	}
+	id, _ := ast.Unparen(u.X).(*ast.Ident)
+	return id
+}
+
+// optNilTest: `p == nil` / `p != nil` with p of type *string / *uint8 / *bool (an option).
+func (c *fctx) optNilTest(x *ast.BinaryExpr) (string, bool) {
+	if x.Op != token.EQL && x.Op != token.NEQ {
+		return "", false
+	}
+	v, n := x.X, x.Y
+	if c.info.Types[v].IsNil() {
+		v, n = n, v
+	}
+	if !c.info.Types[n].IsNil() || c.info.Types[v].IsNil() {
+		return "", false
+	}
+	if g := c.typeOf(v); !g.popt {
+		return "", false
+	}
+	c.t.usesText = true
+	if x.Op == token.NEQ {
+		return "(go_notnil " + c.expr(v) + ")", true
+	}
+	return "(negb (go_notnil " + c.expr(v) + "))", true
 }
 
 // textLibs: the string / text-conversion library functions with a fixed reading in Translate/GoSemText.v
@@ -1751,6 +1840,12 @@ func (c *fctx) expr(e ast.Expr) string {
 		if s, ok := c.unsafeLoad(x); ok {
 			return s
 		}
+		if pg := c.typeOf(x.X); pg.popt {
+			// *p with p a *string / *uint8 / *bool: the nil-dereference panic is not modelled (zero value), as for go_deref on *S
+			base := pg
+			base.popt = false
+			return fmt.Sprintf("(go_deref %s %s)", t.zero(x.Pos(), base), c.expr(x.X))
+		}
 		t.failf(x.Pos(), "dereference of something that is not a parameter")
 	case *ast.UnaryExpr:
 		g := c.typeOf(e)
@@ -1778,6 +1873,9 @@ func (c *fctx) expr(e ast.Expr) string {
 		t.failf(x.Pos(), "unary operator %s on %s", x.Op, c.info.TypeOf(e))
 	case *ast.BinaryExpr:
 		if s, ok := c.errNilTest(x); ok {
+			return s
+		}
+		if s, ok := c.optNilTest(x); ok {
 			return s
 		}
 		return c.binary(x.Pos(), x.Op, c.typeOf(e), x.X, x.Y, c.expr(x.X))
@@ -1845,6 +1943,9 @@ func (c *fctx) expr(e ast.Expr) string {
 		return out
 	case *ast.CompositeLit:
 		g := c.typeOf(e)
+		if g.k == kArray {
+			return t.zero(x.Pos(), g)
+		}
 		given := map[string]string{}
 		for _, el := range x.Elts {
 			kv := el.(*ast.KeyValueExpr)
@@ -2717,6 +2818,28 @@ func (c *fctx) block1(list []ast.Stmt, ind int, k cont) string {
 		if call, ok := ast.Unparen(s.Rhs[0]).(*ast.CallExpr); ok && s.Tok == token.DEFINE && builtinOf(c.info, call) == "" {
 			if ftv, isConv := c.info.Types[call.Fun]; !(isConv && ftv.IsType()) {
 				if callee := calleeOf(c.info, call); callee != nil {
+					if isJSONUnmarshal(callee) {
+						// err := json.Unmarshal(b, &x): the oracle returns the error and the new value of x
+						id, ok := lhs.(*ast.Ident)
+						if !ok || id.Name == "_" || c.info.Defs[id] == nil {
+							t.failf(s.Pos(), "json.Unmarshal's error bound to something that is not a new variable")
+						}
+						tgt := jsonTarget(c.info, call)
+						tn, ok := c.vars[c.info.Uses[tgt]]
+						if !ok {
+							t.failf(s.Pos(), "json.Unmarshal into something that is not a local variable")
+						}
+						for _, p := range c.f.params {
+							if types.Object(p.v) == c.info.Uses[tgt] {
+								t.failf(s.Pos(), "json.Unmarshal into a parameter")
+							}
+						}
+						if g := c.typeOf(call.Args[0]); g.k != kBytes {
+							t.failf(s.Pos(), "json.Unmarshal of a %s", c.info.TypeOf(call.Args[0]))
+						}
+						val := fmt.Sprintf("(%s%s %s %s)", jsonOraclePrefix, c.typeOf(tgt).st.coq, c.expr(call.Args[0]), tn)
+						return pad(ind) + "let '(" + c.declare(c.info.Defs[id]) + ", " + tn + ") := " + val + " in\n" + rest(ind)
+					}
 					if tl, ok := textLibOf(callee); ok && tl.special == "split" {
 						// parts := strings.Split(s, "<one byte>")
 						id, ok := lhs.(*ast.Ident)
